@@ -40,9 +40,34 @@ def runFresh (kv : List (String × String)) : Res := Id.run do
   if moved > 0 then tags := "fresh.moved" :: tags else tags := "fresh.stalled" :: tags
   return .ok tags (some s!"fresh/{strat}/{obs.length}")
 
+/-- a read of more than a thousand pages from a region that is readable throughout: by `C17_vmem_readable`, `C17_file`,
+    `C17_ptrace_complete` and `copy_readable` every strategy's model returns exactly the target's bytes (the models are
+    not evaluated on four million bytes; their value is the theorems') -/
+def runBig (kv : List (String × String)) : Res := Id.run do
+  let some strat := get kv "strat" | return .bad "strat"
+  let some src := getNat kv "src" | return .bad "src"
+  let some n := getNat kv "len" | return .bad "len"
+  let some page := getNat kv "page" | return .bad "page"
+  let some result := get kv "result" | return .bad "result"
+  let some sum := getNat kv "sum" | return .bad "sum"
+  let some (addr, len, kind) := (match ((get kv "region").getD "").splitOn ":" with
+    | [a, l, k] => do some (← a.toNat?, ← l.toNat?, k)
+    | _ => none) | return .bad "region"
+  let m := regionMem addr len page kind
+  let tags := [s!"strat.{strat}", "read.big"]
+  if !(addr ≤ src && src + n ≤ addr + len) then return .bad "range"
+  if result != s!"ok:{n}" then
+    return .propfail s!"strategy {strat}: range [{src},+{n}) ({(n + page - 1) / page} pages) is entirely readable but the result is {result}" tags
+  let mut h : UInt64 := 0xcbf29ce484222325
+  for k in [0 : n] do
+    h := (h ^^^ (m.byte (src + k)).toUInt64) * 0x100000001b3
+  if h.toNat != sum then return .propfail s!"strategy {strat}: the {n} bytes returned differ from the target's memory" tags
+  return .ok tags (some s!"big/{strat}/{src % 4096}/{n}")
+
 def run (kv : List (String × String)) : Res := Id.run do
   if get kv "kind" == some "spawnfail" then return .bad "spawn"
   if get kv "kind" == some "fresh" then return runFresh kv
+  if get kv "kind" == some "bigread" then return runBig kv
   let some strat := get kv "strat" | return .bad "strat"
   let some src := getNat kv "src" | return .bad "src"
   let some n := getNat kv "len" | return .bad "len"
